@@ -921,10 +921,11 @@ Section EnumSound.
       destruct (st =? opret)%Z eqn:Es; cbn [negb] in H; [|discriminate]. apply Z.eqb_eq in Es.
       destruct (in_capsb caps (fa_as x)) eqn:Ex; cbn [negb] in H; [|discriminate].
       destruct (in_capsb caps (fa_as a) && negb (fa_eqb x a)) eqn:Ep; [discriminate|].
-      destruct (existsb (fa_eqb x) (conv_all s rcaps mem d len caps a)) eqn:Ee;
-        cbn [negb] in H; [|discriminate].
+      destruct (existsb (fun d' => existsb (fa_eqb x) (conv_all s rcaps mem d' len caps a)) (seq 0 (S d)))
+        eqn:Ee; cbn [negb] in H; [|discriminate].
       split; [reflexivity|]. split; [assumption|]. split; [now apply in_capsb_spec|]. split.
-      + apply existsb_exists in Ee. destruct Ee as [y [Hy He]]. apply fa_eqb_eq in He. subst y.
+      + apply existsb_exists in Ee. destruct Ee as [d' [_ Ee]].
+        apply existsb_exists in Ee. destruct Ee as [y [Hy He]]. apply fa_eqb_eq in He. subst y.
         eapply conv_all_sound; exact Hy.
       + intros Hc. apply in_capsb_spec in Hc. rewrite Hc in Ep. cbn in Ep.
         apply negb_false_iff in Ep. now apply fa_eqb_eq.
